@@ -13,7 +13,7 @@ import z3
 
 from lib import runner
 from symx.engine import Verdict
-from symx.kit import MethodSet, Rule, outcome_of
+from symx.kit import MethodSet, class_rule, levels_mechanism, outcome_of
 from symx.world import World
 
 PID = "C02"
@@ -75,7 +75,7 @@ def make_run(W, shape, known_active=None):
         elig.append(ok)
         sigkey.append((tuple(md["pos"]), tuple(kw) if kw is not None else None))
     supcls = argcls + ([kwc] if kwc is not None else [])
-    rule = Rule(W, sup, W.P, sigkey=sigkey, eligible=elig)
+    rule = class_rule(W, sup, supcls, W.P, sigkey=sigkey, eligible=elig)
     # registered types per supplied position/name (what ovld's per-position table contains)
     regs = []
     for k in range(nargs):
@@ -106,18 +106,11 @@ def make_run(W, shape, known_active=None):
             info["resolve"] = list(out2)
             if out2 != out:
                 sane = False
-        app = [rule.app(m, supcls) for m in range(M)]
+        app = [rule.app(m) for m in range(M)]
         anyapp = z3.Or(app)
-        wins = [rule.wins(m, supcls) for m in range(M)]
+        wins = [rule.wins(m) for m in range(M)]
         anywin = z3.Or(wins)
-        # don't-care: two applicable top-priority methods with identical supplied types but different signatures
-        dc = []
-        for a in range(M):
-            for b in range(a + 1, M):
-                if elig[a] and elig[b] and sup[a] == sup[b] and sigkey[a] != sigkey[b]:
-                    top = z3.And([z3.Implies(app[c], W.P[a] >= W.P[c]) for c in range(M)])
-                    dc.append(z3.And(app[a], app[b], W.P[a] == W.P[b], top))
-        dontcare = z3.Or(dc) if dc else z3.BoolVal(False)
+        dontcare = rule.dontcare()
         napp = sum(1 for m in range(M) if z3.is_true(ctx.value(app[m])))
         tags = [out[0]]
         known = []
@@ -132,61 +125,14 @@ def make_run(W, shape, known_active=None):
             a = out[1]
             post = wins[a]
             if KNOWN_LEVELS in known_active:
-                okk = levels_mechanism(ctx, W, rule, regs, supcls, sup, sigkey, elig, a)
+                okk = levels_mechanism(ctx, rule, regs, a)
                 known.append((KNOWN_LEVELS, z3.And(app[a], z3.Not(anywin), z3.BoolVal(okk))))
         else:
             post = z3.BoolVal(False)
-        post = z3.Or(post, dontcare) if dc and sane else post
+        post = z3.Or(post, dontcare) if sane else post
         return Verdict(post, known, info, tags, nontrivial=napp >= 2)
 
     return run
-
-
-def levels_mechanism(ctx, W, rule, regs, supcls, sup, sigkey, elig, a):
-    """Mechanism of the recorded finding C02-integer-levels, reconstructed from the model through
-    decide() (its literals join the path condition): ovld ranks by the *index of the topological
-    layer* of each registered type among the applicable registered types at that position.  Returns
-    True iff the method that ran, `a`, has maximal priority and its layer tuple is pointwise >= and
-    different from that of every applicable equal-priority rival with another signature (and it is
-    the later one between identical signatures) -- i.e. exactly when the integer comparison makes
-    `a` look dominant although the subclass order does not."""
-    D = ctx.decide
-    M = len(sup)
-    lv = []
-    for pos, c in enumerate(supcls):
-        appl = [t for t in regs[pos] if D(W.rel(c, t))]
-        h = {}
-
-        def height(t):
-            if t not in h:
-                below = [u for u in appl if u != t and D(W.rel(u, t))]
-                h[t] = 1 + max((height(u) for u in below), default=-1)
-            return h[t]
-
-        L = 1 + max((height(t) for t in appl), default=0)
-        lv.append({t: L - 1 - height(t) for t in appl})
-
-    def lt(m):
-        return tuple(lv[k][sup[m][k]] for k in range(len(supcls)))
-
-    appc = [elig[m] and all(sup[m][k] in lv[k] for k in range(len(supcls))) for m in range(M)]
-    if not appc[a]:
-        return False
-    P = W.P
-    for b in range(M):
-        if b == a or not appc[b]:
-            continue
-        if D(P[b] > P[a]):
-            return False
-        if D(P[b] == P[a]):
-            if sigkey[a] == sigkey[b]:
-                if b > a:
-                    return False
-            else:
-                la, lb = lt(a), lt(b)
-                if not (all(x >= y for x, y in zip(la, lb)) and la != lb):
-                    return False
-    return True
 
 
 # ---------------------------------------------------------------------------
